@@ -226,8 +226,8 @@ class Main(Suite):
     go_cmd = "c21"
     coq_imports = "From GoGit Require Import Model.Gc Model.Crash."
     quick_n = 90
-    thorough_n = 2500
-    coq_chunk = 30
+    thorough_n = 700
+    coq_chunk = 60
     impl_env = {"TMPDIR": "/dev/shm"} if os.path.isdir("/dev/shm") else None
 
     def gen(self, rng, n, tier):
